@@ -254,6 +254,7 @@ def extract_fn(repo, blk, meta, mode):
     item = X.drop_vis(item, log)
     item = X.erase_async(item, log)
     item = X.closure_underscore(item, log)
+    item = X.desugar_range_inclusive(item, log)
     for pat, rep in assoc:
         item, cnt = X.subst_tokens(item, pat, rep, log, 'R2')
         item = X.relex(item)
